@@ -300,10 +300,35 @@ class Taint:
             if c.kind == "const":
                 return Cls("const", {getattr(x, name[1:])() if isinstance(x, str) else x for x in c.consts})
             return c
+        if name == ".join" and recv is not None and recv[0] == "const" and isinstance(recv[1], str) and SAFE_CONST.match(recv[1]) and len(args) == 1:
+            # sep.join(parts): the class of the parts (a separator without metacharacters adds nothing)
+            return self.sequence_class(fi, args[0], env, depth + 1)
         if name in self.project.funcs:
             cfi = self.project.funcs[name]
             return self.return_class(cfi, self.bind_env(fi, o, env, depth), None, depth + 1)
         return Cls("tainted", why=f"result of {name}")
+
+    def sequence_class(self, fi: FuncInfo, o, env, depth) -> Cls:
+        """Join of the classes of the elements of a sequence-valued origin (display, comprehension, choice of those)."""
+        if depth > 25:
+            return Cls("tainted", why="analysis depth exceeded")
+        if o[0] == "tuple":
+            out = Cls("const", set())
+            for x in o[1]:
+                out = out.join(self.classify(fi, x, env, depth + 1)) if out.consts or out.kind != "const" else self.classify(fi, x, env, depth + 1)
+            return out
+        if o[0] == "phi":
+            out = None
+            for x in o[1]:
+                c = self.sequence_class(fi, x, env, depth + 1)
+                out = c if out is None else out.join(c)
+            return out
+        if o[0] == "comp" and len(o) > 3 and o[3] in self.org(fi).comp_nodes:
+            comp, nid = self.org(fi).comp_nodes[o[3]]
+            if self.value_is_markup(fi, nid, comp.elt):
+                return Cls("markup")
+            return self.classify(fi, self.org(fi).of(nid, comp.elt), env, depth + 1)
+        return Cls("tainted", why=f"elements of {show(o)[:60]}")
 
     def bind_env(self, fi: FuncInfo, call_o, env, depth) -> Dict[str, Cls]:
         cfi = self.project.funcs[call_o[1]]
@@ -528,14 +553,57 @@ class Taint:
             return True
         if isinstance(val, ast.BinOp) and isinstance(val.op, ast.Add):
             return self.value_is_markup(fi, nid, val.left) and self.value_is_markup(fi, nid, val.right)
+        if isinstance(val, ast.IfExp):
+            return self.value_is_markup(fi, nid, val.body) and self.value_is_markup(fi, nid, val.orelse)
         if isinstance(val, ast.Call):
             q = org.scope.resolve_call(val)
             if q in self.project.funcs:
                 return self.builder_returns_markup(self.project.funcs[q])
+            f = val.func
+            if isinstance(f, ast.Attribute) and f.attr == "join" and isinstance(f.value, ast.Constant) and isinstance(f.value.value, str) and SAFE_CONST.match(f.value.value) \
+                    and len(val.args) == 1 and not val.keywords:
+                return self.sequence_is_markup(fi, nid, val.args[0])
             return False
         if isinstance(val, ast.Name):
             ok, _ = self.markup_class(fi, val.id) if any(True for _ in org.defs(nid, val.id)) and org.defs(nid, val.id) != [-1] else (False, [])
             return ok
+        return False
+
+    def sequence_is_markup(self, fi: FuncInfo, nid: int, seq: ast.AST) -> bool:
+        """Every element of the sequence is a checked fragment / constant / builder result: a display, a comprehension
+        or generator of such, or a list variable that only ever receives such (display, append, extend, +=)."""
+        if isinstance(seq, (ast.List, ast.Tuple)):
+            return all(not isinstance(x, ast.Starred) and self.value_is_markup(fi, nid, x) for x in seq.elts)
+        if isinstance(seq, (ast.ListComp, ast.GeneratorExp)):
+            return self.value_is_markup(fi, nid, seq.elt)
+        if isinstance(seq, ast.Name):
+            org = self.org(fi)
+            if org.defs(nid, seq.id) in ([], [-1]):
+                return False
+            key = ("seqmarkup", fi.qualname, seq.id)
+            if key in self._ret:
+                return self._ret[key]
+            self._ret[key] = True
+            ok = True
+            uses = 0
+            for node in org.cfg.nodes:
+                a = node.ast
+                if node.kind == "stmt" and isinstance(a, ast.Assign) and any(isinstance(t, ast.Name) and t.id == seq.id for t in a.targets):
+                    uses += 1
+                    ok = ok and self.sequence_is_markup(fi, node.id, a.value)
+                elif node.kind == "stmt" and isinstance(a, ast.AugAssign) and isinstance(a.target, ast.Name) and a.target.id == seq.id:
+                    ok = ok and isinstance(a.op, ast.Add) and self.sequence_is_markup(fi, node.id, a.value)
+                for e in node_exprs(node):
+                    for c in ast.walk(e):
+                        if isinstance(c, ast.Call) and isinstance(c.func, ast.Attribute) and isinstance(c.func.value, ast.Name) and c.func.value.id == seq.id:
+                            if c.func.attr == "append" and len(c.args) == 1:
+                                ok = ok and self.value_is_markup(fi, node.id, c.args[0])
+                            elif c.func.attr == "extend" and len(c.args) == 1:
+                                ok = ok and self.sequence_is_markup(fi, node.id, c.args[0])
+                            else:
+                                ok = False      # insert / sort / pop / ...: not an append-only list of fragments
+            self._ret[key] = ok and uses > 0
+            return self._ret[key]
         return False
 
     def builder_returns_markup(self, cfi: FuncInfo) -> bool:
